@@ -91,3 +91,20 @@ contract(Q + 'piecewise_formula', P, nla_uf=True,
          invariants={1: {'clauses': _DEFAULT_LOOP}, 2: {'clauses': _DEFAULT_LOOP}},
          ensures={'value_is_sum_of_coefficient_times_variable': f"implies(betas is not None, c05c_val(result) == {SUM_DOC})"},
          replay=_replay_code('c17_piecewise.py', 'piecewise_formula:equals-function'))
+
+# ------------------------------------------------------------------------------------------------ piecewise_as_variable
+# documented: x_T1 + sum_{i >= 2} beta_i x_Ti  (the first variable enters with coefficient one; coefficient q multiplies
+# the variable of interval q + 1)
+SUM_AS_VARIABLE = (f"{pwv(q='0')} + sum_range(lambda q: {_BQ} * {pwv(q='(q + 1)')}, 0, len(thresholds) - 2)")
+
+contract(Q + 'piecewise_as_variable', P, nla_uf=True,
+         types={'thresholds': 'list[float | None]', 'betas': 'list[Expression] | None'},
+         requires={'at_least_two_thresholds': 'len(thresholds) >= 2'},
+         # a single interval leaves no coefficient: the empty sum is refused by bioMultSum
+         raises={'BiogemeError': f"({_BAD_VARIABLE}) or ({_MALFORMED}) or len(thresholds) == 2 or "
+                                 "(betas is not None and len(typed(betas, 'list[Expression]')) != len(thresholds) - 2)"},
+         modifies=[],
+         hints=['c17d_variable_meaning(the_variable)'],
+         invariants={1: {'clauses': _DEFAULT_LOOP}, 2: {'clauses': _DEFAULT_LOOP}},
+         ensures={'value_is_first_variable_plus_sum': f"implies(betas is not None, c05c_val(result) == {SUM_AS_VARIABLE})"},
+         replay=_replay_code('c17_piecewise.py', 'piecewise_as_variable:documented-formula'))
